@@ -237,6 +237,25 @@ func (p *gcpPicker) getLeastBusyReadySubConnRef() *subConnRef {
 	return minScRef
 }
 
+// fieldByName is val.FieldByName(name) that returns the zero Value instead of
+// panicking when the field is promoted through a nil embedded pointer.
+func fieldByName(val reflect.Value, name string) reflect.Value {
+	sf, ok := val.Type().FieldByName(name)
+	if !ok {
+		return reflect.Value{}
+	}
+	for i, x := range sf.Index {
+		if i > 0 && val.Kind() == reflect.Ptr {
+			if val.IsNil() {
+				return reflect.Value{}
+			}
+			val = val.Elem()
+		}
+		val = val.Field(x)
+	}
+	return val
+}
+
 func keysFromMessage(val reflect.Value, path []string, start int) ([]string, error) {
 	if val.Kind() == reflect.Pointer || val.Kind() == reflect.Interface {
 		val = val.Elem()
@@ -252,7 +271,7 @@ func keysFromMessage(val reflect.Value, path []string, start int) ([]string, err
 	if val.Kind() != reflect.Struct {
 		return nil, fmt.Errorf("path %q traversal error: cannot lookup field %q (index %d in the path) in a %q value", strings.Join(path, "."), path[start], start, val.Kind())
 	}
-	valField := val.FieldByName(strings.Title(path[start]))
+	valField := fieldByName(val, strings.Title(path[start]))
 
 	if valField.Kind() != reflect.Slice {
 		return keysFromMessage(valField, path, start+1)
